@@ -19,21 +19,22 @@ CLAIMED = {
             'Front-end dispatch to execute() is covered under C09/C12.', 'contract-based deductive verification (pyvc VC generation from /repo AST + z3/cvc5)', 'DESIGN.md section 4 C04'),
     'C05': ('proof', 'Lemmas over wire bytes (PDU -> ServerDecoder.decode -> execute) for every function code and reason: quantity outside limits -> 03, byte count '
             'contradicting quantity -> 03, FC5 value not 0000/FF00 -> 03, range outside table -> 02, unassigned function code -> 01, each with fc|0x80, and '
-            'exception => all four tables unchanged, FC 23 writes only if both ranges are valid. Two known findings (FC5 value, FC15 truncated quantity) are '
+            'exception => all four tables unchanged, FC 23 writes only if both ranges are valid; contexts over sequential blocks and over sparse blocks (arbitrary key sets). Two known findings (FC5 value, FC15 truncated quantity) are '
             'proved on the complement of their regions and their witnesses replayed on every run.',
             'PDUs of the exact length their function code defines (other lengths: C12). Datastore-failure -> 04 is proved in the front-end units (C09/C12). '
             'A1-A10; z3/cvc5; pyvc translator.', 'contract-based deductive verification (pyvc VC generation from /repo AST + z3/cvc5)', 'DESIGN.md section 4 C05'),
     'C01': ('proof', 'For every message class of the S-PDU table (units/codecs.py; 34 data classes + 34 diagnostic classes + exception response): '
             'encode() of an instance holding any valid field values is byte for byte the PDU of MODBUS AP v1.1b3, and the server/client decoder turns any '
             'spec-conformant PDU into an instance of the right class carrying exactly the wire values (decoder tables included). Loops are cut at '
-            'invariants; bit packing is proved against an LSB-first spec via a separately proved lemma. Four known findings are proved on the complement of their regions.',
-            'File-record (FC 20/21) and device-identification response codecs are not yet under contract at this commit (planned bounded stand-in). '
+            'invariants; bit packing is proved against an LSB-first spec via a separately proved lemma. Five known findings are proved on the complement of their regions.',
+            'File-record codecs (FC 20/21) are BOUNDED units (0..3 record groups per message, decode loops unrolled; field values and data lengths symbolic) and never counted as proved; '
+            'the client-side decode of the 43/14 response is not under contract (its encode and paging are C20). '
             'S-PDU table is a transcription of the specification; A1-A10; struct/compat library models; z3/cvc5.',
             'contract-based deductive verification (pyvc VC generation from /repo AST + z3/cvc5)', 'DESIGN.md section 4 C01'),
     'C02': ('proof', 'Per class: Decoder.decode(fc + K(v).encode()) has view v (real encode composed with real decode, through the real decoder tables); '
             'encode() changes no attribute (hence encode twice / encode after decode give identical bytes); decode into an instance holding an earlier result '
-            'equals decode into a fresh instance. For all field values and all list lengths. Four known findings proved on the complement of their regions.',
-            'Same scope restriction as C01 for FC 20/21 and the 43/14 response. A1-A10; z3/cvc5.',
+            'equals decode into a fresh instance. For all field values and all list lengths.',
+            'FC 20/21: bounded units (0..3 record groups), never counted as proved; 43/14 response decode not under contract. Five known findings. A1-A10; z3/cvc5.',
             'contract-based deductive verification (pyvc VC generation from /repo AST + z3/cvc5)', 'DESIGN.md section 4 C02'),
     'C13': ('proof', 'Decomposition of ModbusTransactionManager.execute along its call structure, each piece a lemma over the real code: the retry loop is cut at the '
             'invariant "frames written + retries left <= retries + 1" (variant: retries left), which gives at most 1 + retries transmissions and termination of the loop '
@@ -50,7 +51,8 @@ CLAIMED = {
             'base_adu_size + PDU size (doubled for ASCII) equals len(buildPacket()) for RTU, ASCII, binary, TLS and TCP for an arbitrary message; '
             '_calculate_exception_length() equals the real exception frame length. Two known findings (GetClearModbusPlus prediction, binary delimiter doubling).',
             'An arbitrary message is abstracted by the assumed contract "encode() returns some bytes" (C02 purity). The length arithmetic inside '
-            '_recv (how many bytes are requested from the transport) is covered under C13/C08. A1-A10; z3/cvc5.',
+            'The reader itself is proved too: from a transport holding exactly the reply frame (normal reply of the predicted length, or exception reply of the specified exception-ADU length) '
+            '_recv requests exactly len(frame) bytes over all its reads and returns the frame (RTU, ASCII, binary, TCP). A1-A10; z3/cvc5.',
             'contract-based deductive verification (pyvc VC generation from /repo AST + z3/cvc5)', 'DESIGN.md section 4 C14'),
     'C19': ('proof', 'For each of the 13 value kinds (8/16/32/64-bit signed and unsigned, 16/32/64-bit floats, bit group, string) and each of the four '
             'byte-order x word-order combinations: add_X appends exactly the conventional register image (S-PAYLOAD), a decoder whose cursor stands at '
@@ -86,7 +88,8 @@ CLAIMED = {
     'C12': ('proof', 'Safety obligations on every path: (a) one arbitrary iteration of each serving loop (3 sync handlers, 2 asyncio handlers; loop cut at the '
             'invariant, so all iterations) with the transport returning any bytes or raising and the framer raising ANY exception: no exception escapes, and '
             'after an exception the connection is closed or the framer reset; (b) execute() of all seven front-ends lets no exception escape and maps a '
-            'datastore failure to exception 04; (c) Twisted entry points raise only what the framer raised.',
+            'datastore failure to exception 04; (c) Twisted entry points raise only what the framer raised; (e) for every write function code (5, 6, 15, 16, 22, 23) and ANY byte string after it: unless the body has exactly the length '
+            'its own count / byte-count fields prescribe (and those agree), decode + execute leaves all four tables unchanged (two known findings: trailing bytes ignored, FC 15 truncation).',
             'Reactor / event-loop behaviour around the proved callbacks is external (Twisted drops the connection on an exception leaving dataReceived). '
             'That a rejected PDU never reaches the store follows from execute being the framer callback, called only after decode returned a message (C07 gate units).',
             'contract-based deductive verification (pyvc VC generation from /repo AST + z3/cvc5)', 'DESIGN.md section 4 C12'),
@@ -102,7 +105,7 @@ CLAIMED = {
             'Three known findings: Twisted UDP should_respond; threaded server executes requests without a lock (directed two-thread lost-update witness); '
             'datagram front-ends share one framer between peers.', 'contract-based deductive verification + ownership obligations', 'DESIGN.md section 4 C17'),
     'C20': ('proof', 'DeviceInformationFactory.get returns exactly the non-empty objects of the category from the requested id onward, ascending, with exact values '
-            '(basic and regular categories: all 2^7 population patterns x all start ids - complete; extended: population patterns over objects 0,2,6,0x80,0x81,0xFF); '
+            '(basic and regular categories: all 2^7 population patterns x all start ids - complete; extended: population patterns over objects 0,2,6,0x80,0x81,0xFF, private objects registered in ascending, descending and rotated order); '
             'ReadDeviceInformationResponse.encode emits exactly the longest prefix that keeps the PDU <= 253 bytes with the S-PAGE more-follows / next-object-id '
             '(0..7 objects, symbolic ascending ids, values of any length 1..245, byte-exact); one chain step makes progress and points at the first unsent object, '
             'so by induction the chain terminates and delivers every object once. One known finding (245-byte value never fits).',
@@ -111,12 +114,12 @@ CLAIMED = {
     'C16': ('proof', 'Contracts on the Twisted ModbusClientProtocol operations over the ghost map pending: tid -> deferred, each proved from an arbitrary pending map '
             '(0..3 other outstanding requests, symbolic pairwise-distinct ids, arbitrary tid counter): execute allocates (tid+1) mod 65536, writes the frame carrying '
             'it, files the returned deferred under it and touches nothing else; _handleResponse fires exactly pending[reply tid] once and removes it, an unknown id '
-            'fires nothing; connectionLost fails every pending deferred once with a connection error and later requests fail at once; FIFO variant pairs in arrival order.',
+            'fires nothing and leaves the framer (frames still buffered from the same segment) untouched; connectionLost fails every pending deferred once with a connection error and later requests fail at once; FIFO variant pairs in arrival order.',
             'Bounded in the NUMBER of other outstanding requests (<= 3; the untouched entries are symmetric). twisted Deferred / defer.fail / Failure are external '
             '(ghost firing log). One known finding (tid reuse after wrap while still pending).', 'contract-based deductive verification (pyvc VC generation from /repo AST + z3/cvc5)', 'DESIGN.md section 4 C16'),
     'C07': ('proof', 'Gate obligation per framer from an ARBITRARY framer state (any buffer, any header; the first loop iteration from an arbitrary state is the '
             'arbitrary iteration): whenever the callback receives a message, it is the one the decoder made from exactly the PDU bytes of a frame in the buffer '
-            'whose integrity check holds - RTU/binary: bit-level CRC-16 of unit+PDU equals the following two bytes (low byte first); ASCII: colon/CRLF envelope, '
+            'whose integrity check holds (every receive loop CUT at the trivial invariant, so every iteration of every call history; a first-iteration companion unit, labelled bounded, supplies replayable counter-models) - RTU/binary: bit-level CRC-16 of unit+PDU equals the following two bytes (low byte first); ASCII: colon/CRLF envelope, '
             'every unit/PDU character a hex digit, LRC of the decoded bytes equals the LRC field; TCP: MBAP length >= 2 and exactly length-1 PDU bytes present. '
             'computeCRC/computeLRC are themselves proved equal to the bit-level specs. Two known findings (socket raw-buffer delivery, ASCII LRC field parsed by int()).',
             'Which corruptions CHANGE a CRC-16/LRC is a property of the specified checksum (not proved). RTU size oracle abstracted to any value >= 4. '
@@ -125,10 +128,11 @@ CLAIMED = {
     'C03': ('proof', 'Build side, for an arbitrary message (any unit id, transaction id, protocol id, function code, payload bytes): buildPacket of the TCP, TLS, RTU and '
             'ASCII framers is byte for byte the S-ADU (MBAP with length = |PDU|+1; unit+PDU+CRC low byte first; colon + upper-case hex of unit, PDU, LRC + CR LF; bare PDU); '
             'computeCRC and computeLRC are proved equal to the bit-level CRC-16/MODBUS and LRC specifications (loop invariant over an uninterpreted fold, CRC table by '
-            '256-way split). Receive side: whole-frame round trip through a fresh receiver proved for TCP, TLS and RTU; RTU length oracle proved per class (68 classes).',
+            '256-way split). Receive side: whole-frame round trip through a fresh receiver proved for TCP, TLS and RTU (the receiver hands the decoder exactly the PDU); that the real ServerDecoder / ClientDecoder '
+            'turn that PDU back into a message equal to the original is proved per message class (message.* lemmas); RTU length oracle proved per class.',
             'ASCII and binary round trips are a BOUNDED stand-in (executable twin, seeded inputs) - the delimiter search over hex text / escaped payload is not '
             'discharged within budget. Binary buildPacket is covered by its length contract only. An arbitrary message is abstracted by "encode() returns some bytes". '
-            'Two known findings (binary delimiter bytes; diagnostic RTU frame size constant).', 'contract-based deductive verification (pyvc) + bounded twin for two framers', 'DESIGN.md section 4 C03'),
+            'Six known findings (binary delimiter bytes; diagnostic RTU frame size constant; four message classes that do not survive their own encode/decode).', 'contract-based deductive verification (pyvc) + bounded twin for two framers', 'DESIGN.md section 4 C03'),
     'C06': ('proof', 'Per-call contracts over ARBITRARY valid frames (given relationally by the S-ADU validity conditions) and an arbitrary remainder: `step` - at a '
             'frame boundary with buffer+chunk = V ++ R the first loop iteration delivers exactly the message of V (PDU bytes, unit id) and leaves buffer = R with a '
             'clean header (induction step of delivered = Frames(received) for any number of frames per read); `partial`/`resume` - a frame arriving in 2 or 3 reads '
@@ -151,12 +155,12 @@ ALL = ['C%02d' % i for i in range(1, 21)]
 m = {
     'version': 1,
     'setup_cmd': "python3-vt -c 'import z3' && /venv/bin/python -c 'import pymodbus' && test -x /usr/bin/cvc5",
-    'hooks': {'guard': 'RIPTIDEIO_PYMODBUS_VERIF', 'enable': 'unused: no instrumentation is added to /repo; contracts are sidecar files under /verif/units',
+    'hooks': {'guard': 'RIPTIDEIO_PYMODBUS_VERIF', 'enable': 'unused: no instrumentation was added to /repo (contracts are sidecar files under /verif/units, the engine reads the sources); the variable is reserved and nothing in /repo tests it',
               'baseline_off_cmd': BASE.replace('--junitxml=<file>', '--junitxml=/var/tmp/pymodbus-baseline.junit.xml'), 'source_commits': [], 'add_only': True},
     'engines': [{'name': 'pyvc', 'path': 'pyvc/', 'serves_properties': sorted(CLAIMED),
                  'kind_free_text': 'AST->SMT verification-condition generator for the real /repo functions with sidecar contracts; z3 then cvc5; concrete replay and bounded twins under /venv/bin/python'}],
     'checks': [], 'not_applicable': [],
-    'notes': 'Exit codes: 0 held, 1 VIOLATION (replayed), 2 undecided without twin, 3 checker malfunction. Known findings: known-findings.txt.',
+    'notes': 'Exit codes: 0 held, 1 VIOLATION (replayed input, or no-failing-input-found against baseline-obligations.txt), 2 undecided without twin, 3 checker malfunction. Known findings: known-findings.txt (+ findings/). Seeded changes: seeded/. DESIGN.md section 10 describes the checks as built.',
 }
 for pid in ALL:
     if pid in CLAIMED:
